@@ -6,6 +6,8 @@ import os
 import pathlib
 import shutil
 import tempfile
+import signal
+import threading
 import traceback
 
 from . import boot  # noqa: F401
@@ -128,7 +130,16 @@ class World:
         return out
 
 
-def run(main_factory, *, seed=0, net_kwargs=None, max_iterations=3_000_000):
+class LoopBlocked(KeyboardInterrupt):
+    """raised from the SIGALRM handler into whatever frame blocks the event-loop thread (a KeyboardInterrupt subclass so that
+    neither a Task step nor a loop handle swallows it)"""
+
+
+BLOCK_INTERVAL_S = 30
+POISONED = False
+
+
+def run(main_factory, *, seed=0, net_kwargs=None, max_iterations=3_000_000, block_detector=True):
     """Run one simulated case under the hygiene monitors.
 
     ``main_factory(net, hyg)`` is a coroutine function returning the case's own
@@ -143,10 +154,30 @@ def run(main_factory, *, seed=0, net_kwargs=None, max_iterations=3_000_000):
             holder["net"] = net
             return await main_factory(net, hyg)
 
+        # the event-loop thread blocked in a synchronous call (lock, sleep, endless loop) of the code under test: wall clock
+        # only triggers the look; the verdict is logical - not one loop iteration between two alarms BLOCK_INTERVAL_S apart
+        seen = {"it": None}
+
+        def on_alarm(signum, frame):
+            net_ = holder.get("net")
+            it = getattr(getattr(net_, "loop", None), "iterations", None)
+            if it is not None and it == seen["it"]:
+                info["blocked"] = "".join(traceback.format_stack(frame)[-10:])
+                raise LoopBlocked()
+            seen["it"] = it
+        old_handler = None
+        if block_detector and threading.current_thread() is threading.main_thread():
+            old_handler = signal.signal(signal.SIGALRM, on_alarm)
+            signal.setitimer(signal.ITIMER_REAL, BLOCK_INTERVAL_S, BLOCK_INTERVAL_S)
         try:
             result, net, stats = simnet.run_sim(main, seed=seed, net_kwargs=net_kwargs,
                                                 max_iterations=max_iterations)
             info["stats"] = stats
+        except LoopBlocked:
+            global POISONED
+            POISONED = True     # whatever blocked the thread (a lock held by an abandoned coroutine) stays: this process is done
+            result = None
+            info.setdefault("blocked", "?")
         except simnet.SimDeadlock as e:
             result = None
             info["deadlock"] = str(e)
@@ -154,6 +185,10 @@ def run(main_factory, *, seed=0, net_kwargs=None, max_iterations=3_000_000):
             result = None
             info["error"] = repr(e)
             info["trace"] = traceback.format_exc()[-3000:]
+        finally:
+            if old_handler is not None:
+                signal.setitimer(signal.ITIMER_REAL, 0)
+                signal.signal(signal.SIGALRM, old_handler)
         info["net"] = holder.get("net")
     info["hygiene"] = hyg
     return result, info
@@ -169,6 +204,13 @@ def failed(info, context=""):
     no timer, main not done) means some await on the code under test never returned: every
     wait of the harness itself is bounded, so this is reported as a hang of the code under
     test.  Any other exception is a failure of the machinery: inconclusive."""
+    if info.get("blocked"):
+        return {"violations": [{"key": "event-loop-blocked",
+                                "msg": f"a synchronous call of the code under test kept the event-loop thread for more than "
+                                       f"{BLOCK_INTERVAL_S} s (not one loop iteration between two alarms): every session of the server "
+                                       f"hangs {context}; stack of the blocked thread:\n{info['blocked']}"}],
+                "monitors": _Zero(), "sig": "blocked", "nontrivial": False, "nevents": 0, "ncalls": 0, "site": "blocked", "by": None,
+                "codes": None, "seq": None, "phase": "blocked", "pool": None, "cut_done": False, "hang": True, "_poisoned": True}
     if info.get("deadlock"):
         return {"violations": [{"key": "hang", "msg": f"the case never completed: {info['deadlock']} {context}"}],
                 "monitors": _Zero(), "sig": "hang", "nontrivial": False, "nevents": 0, "ncalls": 0, "site": "hang", "by": None,
